@@ -75,11 +75,11 @@ H("C02", "runtime::verif_h::c02_stack_off_exits", RT, uf=True, stubs=[EXIT], cov
   what="opcode 0xD with the extension off: exit(1) before anything executes", bounds="complete")
 H("C02", "runtime::verif_h::c02_stack_off_exit_reached", RT, uf=True, stubs=[EXIT], covers=1, expect_cover_partial=True,
   functions=["RunState::stack"], what="reachability twin: exit(1) is reached", bounds="complete")
-H("C02", "runtime::verif_h::c02_dispatch_effect", RT, uf=True, covers=2, timeout=1500, stubs=["RunState::trap / RunState::stack -> path cut (opcodes excluded by assumption)"],
+H("C02", "runtime::verif_h::c02_dispatch_effect", RT, tier="thorough", uf=True, covers=2, timeout=3000, stubs=["RunState::trap / RunState::stack -> path cut (opcodes excluded by assumption)"],
   functions=["RunState::execute", "RunState::OP_TABLE"] ,
   what="execute() through the real table: every word with opcode not in {8,D,F} x arbitrary state vs reference step",
   bounds="none on values; one instruction")
-H("C02", "runtime::verif_h::c02_dispatch_slots", RT, uf=True, covers=2, functions=["RunState::execute", "RunState::OP_TABLE"],
+H("C02", "runtime::verif_h::c02_dispatch_slots", RT, tier="thorough", timeout=3000, uf=True, covers=2, functions=["RunState::execute", "RunState::OP_TABLE"],
   stubs=["RunState::trap / RunState::stack -> tag recorders"], what="opcodes 0xD / 0xF are dispatched to the stack / trap handler with the word itself", bounds="complete")
 
 # ------------------------------------------------------------------ C03
@@ -219,8 +219,10 @@ prop(
     "the thread-local is modelled by a static (kani-compiler cannot compile a drop-carrying thread_local); lace watch itself.",
     [],
 )
-H("C19", "symbol::verif_h::c19_reset_empties", SYMF, covers=1, stubs=[FMT, SYM], functions=["reset_state", "Label::insert", "Label::try_fill"],
-  what="after reset_state every lookup misses and re-definition succeeds", bounds="<= 3 entries from {a,b,ab}, symbolic lines")
+for n in (1, 3):
+    H("C19", f"symbol::verif_h::c19_reset_empties_{n}", SYMF, tier=("quick" if n == 1 else "thorough"), covers=1, stubs=[FMT, SYM], timeout=2400, mem_gb=24,
+      functions=["reset_state", "Label::insert", "Label::try_fill"],
+      what=f"after reset_state ({n} entries recorded) every lookup misses and re-definition succeeds", bounds=f"{n} entries from {{a,b,ab}}, symbolic lines")
 H("C19", "symbol::verif_h::c19_static_source", SYMF, covers=1, functions=["StaticSource::new", "StaticSource::src", "StaticSource::reclaim"],
   what="StaticSource lifetime: new -> src -> reclaim without invalid access", bounds="3-byte source")
 
@@ -570,10 +572,10 @@ for n in (0, 1, 3):
       functions=["AsmSource::get_source_statement"], what="`assembly` on any address never panics", bounds=f"{n} statements")
 
 NAMEF = "src/debugger/command/parse/name.rs"
-for k in range(6):
-    H("C14", f"debugger::command::parse::name::verif_h::c14_names_main_{k}", NAMEF, tier=("quick" if k in (3, 5) else "thorough"), covers=1, timeout=3000, mem_gb=24,
-      functions=["find_name_match", "name_matches", "COMMANDS"], what=f"entries {3*k}..{3*k+2} of the real command table: every name/alias in every letter case "
-      "(symbolic case mask) resolves to its command, no name is shadowed; every misspelling gives a suggestion", bounds="the table as compiled; names <= 24 bytes")
+for e in range(18):
+    H("C14", f"debugger::command::parse::name::verif_h::c14_names_entry_{e:02d}", NAMEF, tier=("quick" if e in (0, 11) else "thorough"), covers=1, timeout=3000, mem_gb=24,
+      functions=["find_name_match", "name_matches", "COMMANDS"], what=f"entry {e} of the real command table: every name/alias in every letter case (symbolic case mask) "
+      "resolves to its command, no name is shadowed by an earlier entry; every misspelling gives a suggestion", bounds="the table as compiled; names <= 24 bytes")
 H("C14", "debugger::command::parse::name::verif_h::c14_names_subcommands", NAMEF, covers=0, timeout=3000, mem_gb=24,
   functions=["find_name_match", "name_matches", "SUBCOMMANDS_STEP", "SUBCOMMANDS_BREAK"], what="step / break subcommand tables, symbolic case mask", bounds="the tables as compiled")
 
